@@ -14,7 +14,8 @@ import importlib
 import collections
 
 VERIF = os.path.dirname(os.path.dirname(os.path.abspath(__file__)))
-REPO = "/repo"
+REPO = os.environ.get("VERIF_REPO", "/repo")   # seedcheck.py points this at a scratch worktree holding a seeded change
+EVIDENCE_DIR = os.environ.get("VERIF_EVIDENCE_DIR", os.path.join(VERIF, "evidence"))
 PYENV = "/root/.pyenv/versions"
 INTERPS = {
     "3.9": PYENV + "/3.9.18/bin/python",
@@ -35,6 +36,8 @@ def worker_env(interp, seed):
     paths = [VERIF]
     if interp != "3.12":
         paths += [REPO, VERIF + "/build/pydeps", VERIF + "/shims"]
+    elif REPO != "/repo":
+        paths += [REPO]   # takes precedence over the editable install of /repo
     env["PYTHONPATH"] = os.pathsep.join(paths)
     env["PYTHONHASHSEED"] = "0"
     env["PYTHONDONTWRITEBYTECODE"] = "1"
@@ -298,11 +301,11 @@ def main_check(prop_id, tier, seed):
         "wall_s": round(time.time() - t0, 2),
         "violations": len(confirmed),
     }
-    os.makedirs(VERIF + "/evidence", exist_ok=True)
-    tmp = VERIF + "/evidence/%s.json.tmp" % prop_id
+    os.makedirs(EVIDENCE_DIR, exist_ok=True)
+    tmp = EVIDENCE_DIR + "/%s.json.tmp" % prop_id
     with open(tmp, "w") as f:
         json.dump(ev, f, indent=1, default=str)
-    os.replace(tmp, VERIF + "/evidence/%s.json" % prop_id)
+    os.replace(tmp, EVIDENCE_DIR + "/%s.json" % prop_id)
 
     summary = "%s %s: evaluations=%d distinct_nontrivial=%d violations=%d known=%d wall=%.1fs" % (
         prop_id, tier, cov["evaluations"], cov["distinct_nontrivial"], len(confirmed),
